@@ -37,7 +37,7 @@ def self_extend_live():
         import dendropy
         m = dendropy.DnaCharacterMatrix.from_dict({"t0": "A"})
         try:
-            with core.alarm(0.3):
+            with core.alarm(30), cpu_alarm(0.3):
                 m.extend_matrix(m)
             _live.append(False)
         except TimeoutError:
@@ -315,10 +315,33 @@ class Env:
         return "".join(out)
 
 
+class cpu_alarm:
+    """with cpu_alarm(s): raises TimeoutError after s seconds of CPU time of this process
+    (ITIMER_VIRTUAL).  A spinning loop burns CPU, a descheduled process does not: unlike a
+    wall-clock alarm this cannot fire on a loaded machine for a call that needs milliseconds."""
+    def __init__(self, seconds):
+        self.seconds = seconds
+
+    def _h(self, *a):
+        raise TimeoutError("cpu alarm")
+
+    def __enter__(self):
+        import signal
+        self.old = signal.signal(signal.SIGVTALRM, self._h)
+        signal.setitimer(signal.ITIMER_VIRTUAL, self.seconds)
+
+    def __exit__(self, *a):
+        import signal
+        signal.setitimer(signal.ITIMER_VIRTUAL, 0)
+        signal.signal(signal.SIGVTALRM, self.old)
+        return False
+
+
 def alarm_s(op):
+    """CPU seconds after which a call counts as not returning (the calls need < 10 ms)"""
     if op[0] in ("ExtendSeqs", "ExtendMatrix") and op[1] == op[2]:
         return 0.3          # list growing while it is iterated: memory grows ~100 MB/s
-    return 3.0 if _hangs[0] < 2 else 0.25   # the operations take milliseconds on these sizes
+    return 1.5 if _hangs[0] < 3 else 0.4
 
 
 def apply_op(env, op):
@@ -408,7 +431,7 @@ def observe(case):
     for op in case["ops"]:
         n0 = len(env.ms)
         try:
-            with core.alarm(alarm_s(op)):
+            with core.alarm(30), cpu_alarm(alarm_s(op)):      # wall-clock backstop, CPU-time verdict
                 out = apply_op(env, op)
         except Skip:
             out = ["SKIP"]
@@ -830,7 +853,7 @@ def exhaustive_cases():
              ["ExtendMatrix", 2, 0], ["ExtendMatrix", 0, 1], ["ExtendMatrix", 0, 4], ["RemoveSeqs", 0, [1]],
              ["RemoveSeqs", 2, [1, 0]], ["DiscardSeqs", 0, [0, 0, 100]], ["KeepSeqs", 1, [1, 7]],
              ["NewSeq", 2, 0, [1, 1]], ["NewSeq", 2, 1, []], ["SetItem", 2, ["KIdx", -2], [0]], ["GetItem", 2, ["KLab", 0]],
-             ["GetItem", 0, ["KIdx", 2]], ["NewSubset", 0, "x y", [1, 0]], ["NewSubset", 1, "A", [1]],
+             ["GetItem", 0, ["KIdx", 2]], ["NewSubset", 0, "x y", [0, 1]], ["NewSubset", 1, "A", [1]],
              ["ExtendSeqs", 2, 2, False], ["ReplaceSeqs", 1, 1]]
     for n in (1, 2):
         for seq in itertools.product(alpha, repeat=n):
